@@ -113,14 +113,33 @@ func ensureBuild(race bool) (*build, error) {
 		if out, err := run(verifDir, nil, "go", "build", "-o", filepath.Join(dir, "gomc-instr"), "./cmd/gomc-instr"); err != nil {
 			return nil, fmt.Errorf("building gomc-instr: %v\n%s", err, out)
 		}
-		out, err := run(verifDir, nil, filepath.Join(dir, "gomc-instr"), "-repo", repoDir, "-out", filepath.Join(dir, "ov"), "-extra", filepath.Join(verifDir, "extra"), ".", "./cmd/protoc-gen-gorums/dev")
+		if err := buildGenerators(dir); err != nil {
+			return nil, err
+		}
+		// the harness is compiled against the stubs the working tree's templates produce now
+		iargs := []string{"-repo", repoDir, "-out", filepath.Join(dir, "ov"), "-extra", filepath.Join(verifDir, "extra")}
+		regen := filepath.Join(dir, "regen")
+		os.RemoveAll(regen)
+		if out, err := run(verifDir, []string{"VERIF_BUILD_DIR=" + dir}, filepath.Join(dir, "gencheck"), "-regen-dev", regen); err != nil {
+			fmt.Fprintf(os.Stderr, "verif: warning: dev stubs not regenerated from the working tree's templates (the committed stubs are used): %s\n", strings.TrimSpace(out))
+		} else {
+			iargs = append(iargs, "-replace-dir", regen)
+		}
+		iargs = append(iargs, ".", "./cmd/protoc-gen-gorums/dev")
+		out, err := run(verifDir, nil, filepath.Join(dir, "gomc-instr"), iargs...)
+		if err != nil && len(iargs) > 8 {
+			// regenerated stubs that do not type-check: fall back to the committed ones (C16/C17 report the breakage)
+			fmt.Fprintf(os.Stderr, "verif: warning: regenerated dev stubs do not compile (the committed stubs are used): %s\n", firstLines(out, 3))
+			iargs = []string{"-repo", repoDir, "-out", filepath.Join(dir, "ov"), "-extra", filepath.Join(verifDir, "extra"), ".", "./cmd/protoc-gen-gorums/dev"}
+			out, err = run(verifDir, nil, filepath.Join(dir, "gomc-instr"), iargs...)
+		}
 		if err != nil {
 			os.Remove(filepath.Join(dir, "ov", "overlay.json"))
 			return nil, fmt.Errorf("instrumenting %s: %v\n%s", repoDir, err, out)
 		}
-		if err := regenerateStubs(dir); err != nil {
-			fmt.Fprintln(os.Stderr, "verif: warning: stubs not regenerated from the working tree's templates:", err)
-		}
+	}
+	if err := buildGenerators(dir); err != nil {
+		return nil, err
 	}
 	args := []string{"build", "-overlay", filepath.Join(dir, "ov", "overlay.json")}
 	if race {
@@ -137,8 +156,39 @@ func ensureBuild(race bool) (*build, error) {
 	return b, nil
 }
 
-// regenerateStubs is replaced once the generator driver exists (gen.go).
-var regenerateStubs = func(dir string) error { return nil }
+func firstLines(s string, n int) string {
+	ls := strings.Split(strings.TrimSpace(s), "\n")
+	if len(ls) > n {
+		ls = ls[:n]
+	}
+	return strings.Join(ls, " | ")
+}
+
+// buildGenerators builds the plugin binaries from the working tree, protoc-gen-go from the
+// module cache, the map-order-controlled plugin and the gencheck provider.
+func buildGenerators(dir string) error {
+	if _, err := os.Stat(filepath.Join(dir, "gencheck")); err == nil {
+		return nil
+	}
+	if out, err := run(repoDir, nil, "go", "build", "-o", filepath.Join(dir, "protoc-gen-gorums"), "./cmd/protoc-gen-gorums"); err != nil {
+		return fmt.Errorf("building protoc-gen-gorums from the working tree: %v\n%s", err, out)
+	}
+	if out, err := run(repoDir, nil, "go", "build", "-o", filepath.Join(dir, "protoc-gen-go"), "google.golang.org/protobuf/cmd/protoc-gen-go"); err != nil {
+		return fmt.Errorf("building protoc-gen-go: %v\n%s", err, out)
+	}
+	// plugin with its map ranges routed through mc.Keys (order chosen by GOMC_MAPORDER)
+	os.MkdirAll(filepath.Join(dir, "ovgen"), 0o755)
+	if out, err := run(verifDir, nil, filepath.Join(dir, "gomc-instr"), "-repo", repoDir, "-out", filepath.Join(dir, "ovgen"), "./cmd/protoc-gen-gorums/gengorums"); err != nil {
+		return fmt.Errorf("instrumenting gengorums: %v\n%s", err, out)
+	}
+	if out, err := run(verifDir, nil, "go", "build", "-overlay", filepath.Join(dir, "ovgen", "overlay.json"), "-o", filepath.Join(dir, "protoc-gen-gorums-mc"), "github.com/relab/gorums/cmd/protoc-gen-gorums"); err != nil {
+		return fmt.Errorf("building the map-order-controlled plugin: %v\n%s", err, out)
+	}
+	if out, err := run(verifDir, nil, "go", "build", "-o", filepath.Join(dir, "gencheck.tmp"), "./cmd/gencheck"); err != nil {
+		return fmt.Errorf("building gencheck: %v\n%s", err, out)
+	}
+	return os.Rename(filepath.Join(dir, "gencheck.tmp"), filepath.Join(dir, "gencheck"))
+}
 
 func pruneBuilds(base, keep string) {
 	ents, err := os.ReadDir(base)
